@@ -45,3 +45,10 @@ pub assume_specification<T>[ <Arc<T> as From<T>>::from ](t: T) -> (r: Arc<T>)
     ensures *r == t;
 pub assume_specification<T>[ <T as From<T>>::from ](t: T) -> (r: T)
     ensures r == t;
+
+// ---- R-cast wrappers: `as` casts between integers and floats (Verus rejects the syntax); the Rust body is that cast ----
+pub uninterp spec fn usize_to_f64(n: usize) -> f64;
+#[verifier::external_body]
+pub fn vcast_usize_f64(n: usize) -> (r: f64)
+    ensures r == usize_to_f64(n)
+{ n as f64 }
